@@ -155,4 +155,31 @@ PROPS = {
         assumptions=["f64::ln within one ulp", "evaluation bound K*u*sum|terms| with K=16(n+3) per library evaluation, "
                      "accumulated over the pieces crossed; quartic log pieces add 1e-12*sum|terms| (C10)"],
     ),
+    "C04": dict(
+        kind=OFFLINE, oracle="c04.py",
+        rule=("cases = distinct knot sequences (3-60 knots, strictly increasing x; families: integer grid, uneven, "
+              "geometric spacing, offsets to 1e9, scales 1e+-25; monotone, oscillating, plateaux, ramps, collinear, "
+              "collinear+noise, random ordinates); the oracle computes the Kruger slopes in exact rational arithmetic "
+              "and checks per returned cubic (evaluated exactly): end == right abscissa (bits), both knot ordinates "
+              "within 64u*T and both end derivatives within 64u*TD (T, TD = interval-wide term magnitudes)"),
+        assumptions=["knot sets whose intermediate magnitudes leave [2^-960, 2^1000] (including products of adjacent "
+                     "secant slopes) are outside the domain and skipped (counted)"],
+    ),
+    "C05": dict(
+        kind=OFFLINE, oracle="c05.py",
+        rule=("same event log as C04 with its own seed lane; per returned cubic the critical points (roots of P') are "
+              "located at 600 bits, so overshoot beyond the knot ordinates and backtracking against the data direction "
+              "are decided for every real x of the interval, not sampled; slope at knots where adjacent secants differ "
+              "in sign or vanish must be 0 within 64u*TD; exactly collinear knots must give the line; the Hermite data "
+              "are compared with the exact Kruger spline (C04's check) so the whole curve coincides with it"),
+    ),
+    "C06": dict(
+        kind=OFFLINE, oracle="c06.py",
+        rule=("cases = distinct knot slices (2-50 knots: increasing, repeated, out-of-order runs, gaps of 0 / EPSILON "
+              "-+ 1ulp, large offsets, scales) ; exact rational oracle: piece count, end_i == running maximum, segment "
+              "through its forced left knot, through the right knot when >= EPSILON wide else constant (b==0, a==y_i), "
+              "and for strictly increasing input the library's evaluate at every knot, between knots and outside vs "
+              "the exact straight line through the bracketing knots, all within 16u*sum|terms|"),
+        assumptions=["segments whose exact width and computed width classify differently against EPSILON are skipped (counted)"],
+    ),
 }
